@@ -134,19 +134,29 @@ Chunk *newline_add_between(Chunk *start, Chunk *end)
                pc = pc2;
             }
 
-            if (end == pc)
+            if (  end->TestFlags(PCF_IN_PREPROC)
+               && !pc->Is(CT_NL_CONT))
             {
-               LOG_FMT(LNEWLINE, "%s(%d): pc1 and pc are identical\n",
+               // behind that newline the directive is over: the brace gets its line break in front (below)
+               LOG_FMT(LNEWLINE, "%s(%d): the brace stays inside the directive\n",
                        __func__, __LINE__);
             }
             else
             {
-               // Move the open brace to after the newline
-               end->MoveAfter(pc);
+               if (end == pc)
+               {
+                  LOG_FMT(LNEWLINE, "%s(%d): pc1 and pc are identical\n",
+                          __func__, __LINE__);
+               }
+               else
+               {
+                  // Move the open brace to after the newline
+                  end->MoveAfter(pc);
+               }
+               LOG_FMT(LNEWLINE, "%s(%d):\n", __func__, __LINE__);
+               newline_add_after(end);
+               return(pc);
             }
-            LOG_FMT(LNEWLINE, "%s(%d):\n", __func__, __LINE__);
-            newline_add_after(end);
-            return(pc);
          }
          else                  // Issue #3873
          {
